@@ -359,7 +359,21 @@ fn handler_level(r: &mut Report, work: &str, seed: u64, slow: bool) {
         r.violation("C16/not-retrievable-after-set", "item not retrievable right after set (time limit 1)", J::Null, replay.clone());
     }
     if cache.get("/x", 0).is_some() {
-        r.violation("C16/stale-hit", "entry with time limit 1 s still returned after 2.15 s", J::Null, replay);
+        r.violation("C16/stale-hit", "entry with time limit 1 s still returned after 2.15 s", J::Null, replay.clone());
+    }
+    // replacing an EXPIRED entry (same length, shorter, longer; also on another host) makes the new bytes
+    // retrievable at once: the stored item's age counts from this store, not from the one it replaces
+    cache.set("/y", 1, vec![9; 7], MimeType::from_extension("txt"));
+    std::thread::sleep(Duration::from_millis(2150));
+    r.count("real_sleeps", 1);
+    for (key, host, new) in [("/x", 0usize, vec![4u8, 5, 6]), ("/y", 1usize, vec![7u8; 7]), ("/x", 0, vec![8u8; 2]), ("/y", 1, vec![6u8; 40])] {
+        r.eval();
+        cache.set(key, host, new.clone(), MimeType::from_extension("txt"));
+        match cache.get(key, host) {
+            Some(item) if item.data == new => r.count("expired_entries_replaced_and_retrievable", 1),
+            Some(item) => r.violation("C16/wrong-data", format!("after replacing the expired entry {} (host {}) get returns {:?} instead of the {} new bytes", key, host, &item.data[..item.data.len().min(8)], new.len()), J::Null, replay.clone()),
+            None => r.violation("C16/not-retrievable-after-set", format!("an item of {} bytes stored over an EXPIRED entry of the same key ({} on host {}, time limit 1 s, old entry 2.15 s old) is not retrievable right after set", new.len(), key, host), J::Null, replay.clone()),
+        }
     }
     let _ = std::fs::remove_dir_all(&dir);
 }
